@@ -35,6 +35,11 @@ WHOLE-STREAM THEOREMS (for EVERY application that answers at once and EVERY byte
   hands over) — known finding `te-identity`.  `body_is_rfc_body` / `no_request_from_body_bytes` need no exception:
   a message the reference ACCEPTS has no `Transfer-Encoding: identity`.
 
+ANY SEGMENTATION (added with the mutation audit, class `segmented` of the check): `body_is_rfc_body_segmented_partial`,
+`no_request_from_body_bytes_segmented_partial`, `bad_framing_gets_400_and_stop_segmented_partial` — the same
+statements for a stream that arrives as an arbitrary list of deliveries, given `SegInvariant` (= the conclusion of
+`TwistedProps.C18.http_seg_invariant`; see the section for why it is a hypothesis here).
+
 Nothing is claimed where the reference says `may` (obs-fold, bare CR/LF in a value, versions other than 1.0/1.1,
 size limits, codings before a final `chunked`, …): RFC 9110/9112 let a recipient reject or tolerate.
 
@@ -358,5 +363,82 @@ example : ((delivered (feed nullApp init exStream2).outs).map fun r => (r.uri, r
     ((R.parseStream exStream2).1.map fun m => (m.target, m.body.length, m.start, m.stop)) =
       [([47, 97], 19, 0, 59), ([47, 114, 101, 97, 108], 0, 59, 81)] ∧
     (R.parseStream exStream2).2 = .done := by decide +kernel
+
+/-! ## any segmentation (the class `segmented` of the check)
+
+The whole-stream theorems above speak of ONE delivery.  That the observables do not depend on how the stream is cut
+into deliveries is `TwistedProps.C18.http_seg_invariant` (every application, every list of deliveries, no hypothesis).
+The two developments cannot be imported into one file: `TwistedProps.C22.SizeLine` (used here) and
+`TwistedProps.C18.ChunkedStep` each generate the equation lemma `Twisted.Http.Chunked.handleChunkLength.eq_1`, and Lean
+refuses an environment that contains it twice.  So the segmented statements are `_partial`: they take the CONCLUSION of
+the C18 theorem as the hypothesis `SegInvariant app chunks`; what is missing is only its discharge by
+`TwistedProps.C18.http_seg_invariant app chunks` (a one-line `simp only [obs]` once both files can be imported).
+Full statements: the three theorems below without `hseg`. -/
+
+/-- one delivery through the event loop of the driver is `feed` -/
+theorem runOps_one_delivery (app : App) (stream : Bytes) :
+    runOps app init [.data stream] = feed app init stream := by
+  have hs : (init : St).stopped = false := rfl
+  simp [runOps, step, hs]
+
+/-- the conclusion of `TwistedProps.C18.http_seg_invariant` (proved there for EVERY application and EVERY list of
+    deliveries), restricted to the observables of this property -/
+abbrev SegInvariant (app : App) (chunks : List Bytes) : Prop :=
+  delivered (runOps app init (chunks.map .data)).outs = delivered (runOps app init [.data chunks.flatten]).outs ∧
+  written (runOps app init (chunks.map .data)).outs = written (runOps app init [.data chunks.flatten]).outs ∧
+  (runOps app init (chunks.map .data)).chan.closed = (runOps app init [.data chunks.flatten]).chan.closed
+
+/-- the hypothesis is not vacuous: it holds outright for a single delivery -/
+theorem segInvariant_one (app : App) (stream : Bytes) : SegInvariant app [stream] := by
+  simp [SegInvariant]
+
+theorem body_is_rfc_body_segmented_partial (app : App) (hfin : AtOnce app) (chunks : List Bytes)
+    (hseg : SegInvariant app chunks) (k : Nat) (r : Req) (m : R.Msg)
+    (hr : (delivered (runOps app init (chunks.map .data)).outs)[k]? = some r)
+    (hm : (R.parseStream chunks.flatten).1[k]? = some m) :
+    r.method = m.method ∧ r.uri = m.target ∧ r.version = m.version ∧ r.body = m.body := by
+  rw [hseg.1, runOps_one_delivery] at hr
+  exact body_is_rfc_body app hfin chunks.flatten k r m hr hm
+
+theorem no_request_from_body_bytes_segmented_partial (app : App) (hfin : AtOnce app) (chunks : List Bytes)
+    (hseg : SegInvariant app chunks) (k : Nat) (r : Req) (m m1 : R.Msg)
+    (hr : (delivered (runOps app init (chunks.map .data)).outs)[k + 1]? = some r)
+    (hm : (R.parseStream chunks.flatten).1[k]? = some m) (hm1 : (R.parseStream chunks.flatten).1[k + 1]? = some m1) :
+    (m1.start = m.stop ∨ (m1.start = m.stop + 2 ∧ R.startsCRLF (chunks.flatten.drop m.stop) = true)) ∧
+    ∃ m' rest, R.parseOne (chunks.flatten.drop m1.start) = .ok (m', rest) ∧ m1.stop = m1.start + m'.stop ∧
+      r.method = m'.method ∧ r.uri = m'.target ∧ r.version = m'.version ∧ r.body = m'.body := by
+  rw [hseg.1, runOps_one_delivery] at hr
+  exact no_request_from_body_bytes app hfin chunks.flatten k r m m1 hr hm hm1
+
+theorem written_append (a b : List Out) : written (a ++ b) = written a ++ written b := by
+  induction a with
+  | nil => rfl
+  | cons o t ih => cases o <;> simp [written, ih]
+
+theorem bad_framing_gets_400_and_stop_segmented_partial (app : App) (hfin : AtOnce app) (chunks : List Bytes)
+    (hseg : SegInvariant app chunks) (k : R.BadKey)
+    (hstop : (R.parseStream chunks.flatten).2 = .bad k) (hk : k ≠ .teIdentity) :
+    (runOps app init (chunks.map .data)).chan.closed = true ∧
+    (delivered (runOps app init (chunks.map .data)).outs).length ≤ (R.parseStream chunks.flatten).1.length ∧
+    ((∀ r ∈ delivered (runOps app init (chunks.map .data)).outs, checkPersistence r.headers r.version = true) →
+      (∃ w, written (runOps app init (chunks.map .data)).outs = w ++ badRequestBytes) ∧
+        (delivered (runOps app init (chunks.map .data)).outs).length = (R.parseStream chunks.flatten).1.length) := by
+  obtain ⟨e1, e2, e3⟩ := hseg
+  rw [runOps_one_delivery] at e1 e2 e3
+  obtain ⟨h1, h2, h3⟩ := bad_framing_gets_400_and_stop app hfin chunks.flatten k hstop hk
+  rw [e1, e2, e3]
+  refine ⟨h1, h2, fun hp => ?_⟩
+  obtain ⟨o, ho, _, hl⟩ := h3 hp
+  refine ⟨⟨written o, ?_⟩, hl⟩
+  rw [ho, written_append]
+  simp [written]
+
+/-- the three-delivery split `POST /a …19␍␊␍` | `␊GET /x HTTP/1.1␍␊␍␊GET /re` | `al HTTP/1.1␍␊␍␊` of `exStream2`
+    (cut between the CR and the LF that end the head, and inside the second request line) -/
+def exChunks2 : List Bytes := [exStream2.take 58, (exStream2.drop 58).take 27, exStream2.drop 85]
+
+example : exChunks2.flatten = exStream2 ∧ SegInvariant nullApp exChunks2 ∧
+    ((delivered (runOps nullApp init (exChunks2.map .data)).outs).map fun r => (r.uri, r.body.length)) =
+      [([47, 97], 19), ([47, 114, 101, 97, 108], 0)] := by decide +kernel
 
 end TwistedProps.C19
